@@ -29,6 +29,7 @@ import contextlib, io, math
 from fractions import Fraction as F
 import numpy as np
 from .. import common
+from ..translator import py2lean
 from ..common import enc, ask, call
 from .. import corethm
 
@@ -773,7 +774,18 @@ def stream_death(ctx, corr_failures):
             corr_failures.append((c, code, model, ok))
 
 
+# source translator (DESIGN.md 3.2): part of the model is regenerated from the source text on every run
+TRUSTED = list(TRUSTED) + [py2lean.trusted_note("approx")]
+PROP_FILES = ["PersimVerif/Props/C08.lean"] + py2lean.prop_files("approx")
+
+
+def pre_build(ctx):
+    """source translator: regenerate Generated/Src*.lean from PERSIM_ROOT's source"""
+    py2lean.pre_build(ctx, ("approx",))
+
+
 def run(ctx):
+    py2lean.report_broken(ctx, PROP_FILES)
     corr_failures = []
     cov = common.LineCov(["persim/landscapes/approximate.py", "persim/landscapes/auxiliary.py", "persim/landscapes/tools.py",
                           "persim/landscapes/transformer.py"])
@@ -899,3 +911,4 @@ MANIFEST = {
             "[T] only: vectorize against the true landscape (known finding where the C03 shortcut fires).",
     "technique": "Lean 4 theorems over a hand-written model + differential correspondence with the real code",
 }
+MANIFEST["note"] += " " + py2lean.manifest_note("approx")
